@@ -25,6 +25,8 @@ from ..snap import integrity, snapshot
 from . import common
 
 EXTRA_OPS = {"write", "read", "write_coll", "read_coll", "twin"}
+COLL_FAMILIES = [["run:1", "run_1"], ["a|b", "a?b", "a_b"], ["x.y", "x*y", "x_y"], ["A", "a"], ["1", "01"], ["a b", "a_b"]]
+COLL_NAMES = ["n0", "n1", "run:1", "run_1", "a|b", "a?b", "a b", "a_b", "x.y", "x*y", "A", "a", "é", "1", "01"]
 EXPECTED_PROBES = ["write_overwrites_longer_file", "write_failed_in_last_flush", "read_fault_fired",
                    "short_reads_of_a_file_with_multibyte_characters",
                    "write_fault_fired", "overwrite_other_format", "single_row_or_column_matrix"]
@@ -61,6 +63,8 @@ def configure(cfg, r, tier):
             cfg["ops"][k].pop("add_node_to_edge", None)
     else:
         cfg["explicit_idx_rate"] = r.choice([0.2, 0.45])
+    from .c10 import cross_profile
+    cross_profile(cfg, r, 0.12)
 
 
 def init(sim):
@@ -272,8 +276,18 @@ def next_record(sim):
     if x < 0.95:
         fmt = g.r.choice(["hif", "json"])
         chosen = [n for n in names if g.r.random() < 0.7] or names[:1]
-        return {"uid": g.next_uid(), "op": "write_coll", "actors": chosen, "fmt": fmt,
-                "as": g.r.choice(["list", "dict"]), "io": io}
+        rec = {"uid": g.next_uid(), "op": "write_coll", "actors": chosen, "fmt": fmt,
+               "as": g.r.choice(["list", "dict"]), "io": io}
+        if g.r.random() < 0.5:
+            # dataset names: anything a file name may contain on this system, including names
+            # that differ in one punctuation character only
+            rec["names"] = g.r.sample(COLL_NAMES, len(chosen))
+            if len(chosen) >= 2 and g.r.random() < 0.5:
+                fam = g.r.choice(COLL_FAMILIES)
+                rec["names"][:2] = g.r.sample(fam, 2)
+                rec["names"] = rec["names"][:2] + [n for n in rec["names"][2:] if n not in rec["names"][:2]]
+                rec["names"] += [f"n{i}" for i in range(len(chosen) - len(rec["names"]))]
+        return rec
     free = [f"A{i}" for i in range(4) if f"A{i}" not in w.actors]
     if not free:
         return None
@@ -311,6 +325,12 @@ def do_write(sim, rec):
         read_params["nodetype"] = "int" if nt == "int" else None
     if fmt in ("json", "bipartite"):
         read_params["edgetype"] = "int" if et == "int" else None
+    if fmt == "json":
+        # a string cast may be left out or passed explicitly (chosen from the step's uid)
+        if nt == "str" and rec["uid"] % 2:
+            read_params["nodetype"] = "str"
+        if et == "str" and rec["uid"] % 3:
+            read_params["edgetype"] = "str"
     if "delimiter" in params:
         read_params["delimiter"] = params["delimiter"]
     old_size = os.path.getsize(path) if os.path.exists(path) else None
@@ -381,8 +401,8 @@ def do_read(sim, rec):
     fmt, path = rec["fmt"], sim.fs.path(rec["path"])
     st = sim.store.get(rec["path"])
     p = rec["params"]
-    nt = int if p.get("nodetype") == "int" else None
-    et = int if p.get("edgetype") == "int" else None
+    nt = int if p.get("nodetype") == "int" else (str if p.get("nodetype") == "str" else None)
+    et = int if p.get("edgetype") == "int" else (str if p.get("edgetype") == "str" else None)
     delim = p.get("delimiter")
     if fmt == "hif":
         hn = str if p.get("nodetype") == "str" else None
@@ -483,7 +503,10 @@ def do_write_coll(sim, rec):
         payload = [a.sut for a in acts]
         keys = [str(i) for i in range(len(acts))]
     else:
-        payload = {f"n{i}": a.sut for i, a in enumerate(acts)}
+        nm = rec.get("names") or [f"n{i}" for i in range(len(rec["actors"]))]
+        nm = [nm[i] for i, n in enumerate(rec["actors"]) if n in w.actors and
+              admissible(fmt, w.actors[n].model) and not getattr(w.actors[n], "sc_dirty", False)]
+        payload = {k: a.sut for k, a in zip(nm, acts)}
         keys = list(payload)
     if fmt == "hif":
         fn = lambda: xgi.write_hif_collection(payload, root, "c")
